@@ -92,6 +92,10 @@ struct World<'a> {
     zombies: Vec<NodeHost>,
     /// pairs of nodes between which every message is lost
     cut: BTreeSet<(usize, usize)>,
+    /// per node: the filler peers currently in its routing table (index into `fillers`)
+    rt_fillers: Vec<Vec<usize>>,
+    /// per node: filler peers that left its routing table
+    retired: Vec<Vec<PeerId>>,
 }
 
 pub fn execute(plan: &Plan, entropy: u64) -> RunReport {
@@ -118,7 +122,7 @@ pub fn execute(plan: &Plan, entropy: u64) -> RunReport {
             plan,
             rep,
             hosts,
-            fillers: (0..2).map(|i| { let k = data::ed_key(s, 100 + i); let p = k.public().to_peer_id(); (k, p) }).collect(),
+            fillers: (0..(if plan.fillers == 0 { 2 } else { plan.fillers as u64 })).map(|i| { let k = data::ed_key(s, 100 + i); let p = k.public().to_peer_id(); (k, p) }).collect(),
             unknown: data::ed_key(s, 999),
             transit: vec![],
             awaiting: vec![],
@@ -138,6 +142,8 @@ pub fn execute(plan: &Plan, entropy: u64) -> RunReport {
             disk_err_armed: vec![false; plan.n_nodes as usize],
             zombies: vec![],
             cut: BTreeSet::new(),
+            rt_fillers: vec![(0..(if plan.fillers == 0 { 2 } else { plan.fillers as usize })).collect(); plan.n_nodes as usize],
+            retired: vec![vec![]; plan.n_nodes as usize],
         };
         w.run().await;
         nhooks::gates_uninstall();
@@ -168,10 +174,41 @@ impl<'a> World<'a> {
                     self.hosts[i].driver.verif_add_peer(*p, peer_addr(j, p));
                 }
             }
-            for (k, (_kp, p)) in self.fillers.iter().enumerate() {
-                self.hosts[i].driver.verif_add_peer(*p, peer_addr(50 + k, p));
+            for k in self.rt_fillers[i].clone() {
+                let p = self.fillers[k].1;
+                self.hosts[i].driver.verif_add_peer(p, peer_addr(50 + k, &p));
             }
         }
+    }
+
+    /// The peers node `a` replicates to, computed with the harness's own metric: the peers of its routing table within
+    /// its responsible range when at least CLOSE_GROUP_SIZE are, else its CLOSE_GROUP_SIZE closest peers.
+    fn replication_targets(&self, a: usize) -> Vec<PeerId> {
+        let me = self.hosts[a].peer.to_bytes();
+        let mut peers: Vec<([u8; 32], PeerId)> = self
+            .hosts
+            .iter()
+            .enumerate()
+            .filter(|(j, _)| *j != a)
+            .map(|(_, h)| h.peer)
+            .chain(self.rt_fillers[a].iter().map(|k| self.fillers[*k].1))
+            .map(|p| (data::xor_distance(&me, &p.to_bytes()), p))
+            .collect();
+        peers.sort();
+        if let Some(r) = &self.ranges[a] {
+            let within: Vec<PeerId> = peers.iter().filter(|(d, _)| d <= r).map(|(_, p)| *p).collect();
+            if within.len() >= ant_protocol::CLOSE_GROUP_SIZE {
+                return within;
+            }
+        }
+        peers.iter().take(ant_protocol::CLOSE_GROUP_SIZE).map(|(_, p)| *p).collect()
+    }
+
+    fn all_nodes_are_mutual_targets(&self) -> bool {
+        (0..self.hosts.len()).all(|a| {
+            let t = self.replication_targets(a);
+            (0..self.hosts.len()).all(|b| a == b || t.contains(&self.hosts[b].peer))
+        })
     }
 
     fn log_lines(&mut self, lines: Vec<String>) {
@@ -664,6 +701,52 @@ impl<'a> World<'a> {
                         self.rep.log(format!("n{i}: responsible range set to the distance of its {}-th closest record of {}", *sel as usize % ds.len() + 1, ds.len()));
                     }
                 }
+                Step::SetPeerRange { node, j } => {
+                    let i = *node as usize % self.hosts.len();
+                    let me = self.hosts[i].peer.to_bytes();
+                    let mut ds: Vec<[u8; 32]> = self
+                        .hosts
+                        .iter()
+                        .enumerate()
+                        .filter(|(k, _)| *k != i)
+                        .map(|(_, h)| h.peer)
+                        .chain(self.rt_fillers[i].iter().map(|k| self.fillers[*k].1))
+                        .map(|p| data::xor_distance(&me, &p.to_bytes()))
+                        .collect();
+                    ds.sort();
+                    let d = ds[(*j as usize).clamp(1, ds.len()) - 1];
+                    self.ranges[i] = Some(d);
+                    self.hosts[i].driver.verif_set_responsible_range(ant_evm::U256::from_be_bytes(d));
+                    self.rep.fault("responsible_range_set_by_peer_rank");
+                    self.rep.log(format!("n{i}: responsible range set to the distance of its {}-th closest peer of {}", (*j as usize).clamp(1, ds.len()), ds.len()));
+                }
+                Step::Churn { node, which } => {
+                    let i = *node as usize % self.hosts.len();
+                    // fillers 0 and 1 are payees of the uploads and stay
+                    let extra: Vec<usize> = self.rt_fillers[i].iter().copied().filter(|k| *k >= 2).collect();
+                    if extra.is_empty() {
+                        self.rep.log("churn: no extra filler peer in this routing table");
+                    } else {
+                        let leaving = extra[*which as usize % extra.len()];
+                        let gone = self.fillers[leaving].1;
+                        let k = data::ed_key(self.plan.seed, 500 + self.fillers.len() as u64);
+                        let joining = k.public().to_peer_id();
+                        self.fillers.push((k, joining));
+                        let new_idx = self.fillers.len() - 1;
+                        let removed = self.hosts[i].driver.verif_remove_peer(&gone);
+                        let added = self.hosts[i].driver.verif_add_peer(joining, peer_addr(50 + new_idx, &joining));
+                        if !removed || !added {
+                            self.rep.harness_error = Some(format!("churn at n{i}: removed={removed} added={added}"));
+                            return;
+                        }
+                        self.rt_fillers[i].retain(|k| *k != leaving);
+                        self.rt_fillers[i].push(new_idx);
+                        self.retired[i].push(gone);
+                        self.rep.fault("routing_table_churn");
+                        self.rep.log(format!("n{i}: filler peer #{leaving} left its routing table, filler peer #{new_idx} joined"));
+                        self.drain().await;
+                    }
+                }
                 Step::Partition { a, b } => {
                     let (a, b) = (*a as usize % self.hosts.len(), *b as usize % self.hosts.len());
                     if a != b {
@@ -697,9 +780,9 @@ impl<'a> World<'a> {
                                         self.hosts[i].driver.verif_add_peer(*p, peer_addr(j, p));
                                     }
                                 }
-                                let fillers: Vec<PeerId> = self.fillers.iter().map(|(_, p)| *p).collect();
-                                for (k, p) in fillers.iter().enumerate() {
-                                    self.hosts[i].driver.verif_add_peer(*p, peer_addr(50 + k, p));
+                                for k in self.rt_fillers[i].clone() {
+                                    let p = self.fillers[k].1;
+                                    self.hosts[i].driver.verif_add_peer(p, peer_addr(50 + k, &p));
                                 }
                                 // the responsible range is not persisted
                                 self.ranges[i] = None;
@@ -747,7 +830,14 @@ impl<'a> World<'a> {
                 }
                 Step::ForeignAdvert { node } => {
                     let i = *node as usize % self.hosts.len();
-                    let u = self.unknown.public().to_peer_id();
+                    // the sender: a peer the node never knew, or (every other time) one that left its routing table
+                    let u = match self.retired[i].last() {
+                        Some(p) if self.foreign_keys.len() % 2 == 0 => {
+                            self.rep.fault("advert_from_peer_that_left_the_routing_table");
+                            *p
+                        }
+                        _ => self.unknown.public().to_peer_id(),
+                    };
                     let fake = data::seed_bytes(self.plan.seed, "foreign-advert", self.foreign_keys.len() as u64).to_vec();
                     self.foreign_keys.push(fake.clone());
                     // alternately: a list of two keys (an unknown one and a real one this node may lack), a single
@@ -781,6 +871,19 @@ impl<'a> World<'a> {
             *a = false;
         }
         let mut converged_at = None;
+        if !self.all_nodes_are_mutual_targets() {
+            // some node is not among another node's replication targets (bigger routing tables): that pair does not
+            // exchange lists, nothing obliges the replicas to converge
+            for r in 0..2 {
+                self.round(&format!("final {}", r + 1)).await;
+            }
+            self.rep.probe("not_all_nodes_are_mutual_replication_targets");
+            self.rep.log("convergence not required: not every node is a replication target of every other node");
+            return;
+        }
+        if self.plan.fillers != 0 && self.ranges.iter().any(|r| r.is_some()) {
+            self.rep.probe("mutual_targets_in_a_big_routing_table_with_a_range");
+        }
         for r in 0..self.plan.final_rounds {
             self.round(&format!("final {}", r + 1)).await;
             if !self.rep.violations.is_empty() {
